@@ -157,6 +157,23 @@ static void body(int id, void *arg)
     int rank = -1;
     ABT_xstream_self_rank(&rank);
     ran_on[id] = (char)('0' + rank);
+    {
+        /* the executing stream must be one whose scheduler serves the unit's
+         * pool: ES0 has rank 0, ES1 rank 1 */
+        int uid = id >= 6 ? -1 : id >= 3 ? id - 3 : id;
+        int want = -1; /* -1: either stream */
+        if (uid < 0)
+            want = 1; /* creators are pushed to ES1's main pool */
+        else if (C->u[uid].pool == OTHER)
+            want = C->srv == SRV_ES0 ? 1 : 0;
+        else if (C->srv == SRV_ES0)
+            want = 0;
+        else if (C->srv == SRV_ES1)
+            want = 1;
+        abtmc_check(want < 0 || rank == want, "wrong_stream",
+                    "work unit %d ran on stream %d, but only stream %d serves its "
+                    "pool", id, rank, want);
+    }
     if (id < 3)
         order[norder++] = (char)('0' + id);
     if (in_xjoin)
